@@ -51,17 +51,20 @@ Step(e, rg, kn) ==
           /\ regs' = Append(rg, None)
           /\ (o = "ok" /\ a.term # ERR => HashChk("blake2b224", a.b, r.b, sc))
        [] name \in {"witness", "icarus", "daedalus"} ->
-          LET s == IF name = "witness" THEN a.term ELSE Raw(a.term) IN
+          \* a legacy Daedalus key may be ANY 96 bytes: "mutate" takes it from the bytes of key a with one byte changed (e.kb), a key of its own
+          LET mut == name = "daedalus" /\ Has(op, "mutate")
+              s == IF name = "witness" THEN a.term ELSE IF mut THEN Raw([t |-> "imp", of |-> a.term, byte |-> op.mutate.byte, mask |-> op.mutate.xor]) ELSE Raw(a.term)
+              kb == IF name = "daedalus" THEN e.kb ELSE a.b IN
           /\ regs' = Append(rg, None)
           /\ IF a.term = ERR THEN TRUE
              ELSE IF o # "ok" THEN Fail(P, "Witness/" \o name \o "/" \o o, sc, [op |-> op, r |-> r])
-             ELSE /\ Obl(P, sc, <<name, Lookup(kn, PubOf(s)) # {}, Lookup(kn, Sig(s, op.h)) # {}>>)
+             ELSE /\ Obl(P, sc, <<name, mut, Lookup(kn, PubOf(s)) # {}, Lookup(kn, Sig(s, op.h)) # {}>>)
                   /\ Chk(r.verifies, P, "Witness/" \o name \o "/signature-does-not-verify-for-the-given-hash", sc, [op |-> op, r |-> r])
                   /\ Chk(~r.verifies_other_hash, P, "Witness/" \o name \o "/signature-verifies-for-another-hash", sc, [op |-> op, r |-> r])
                   /\ Chk(Agrees(kn, PubOf(s), r.vkey), P, "Witness/" \o name \o "/vkey-is-not-the-public-key-of-the-signing-key", sc, [op |-> op, r |-> r])
                   /\ Chk(Agrees(kn, Sig(s, op.h), r.sig), P, "Witness/" \o name \o "/signature-differs-from-sign-of-the-hash", sc, [op |-> op, r |-> r])
-                  /\ (name # "witness" => Chk(r.cc = Sub(a.b, 65, 96), P, "Witness/" \o name \o "/chain-code", sc, [op |-> op, r |-> r]))
-                  /\ (name = "daedalus" => Chk(r.legacy_bytes = a.b, P, "Witness/daedalus/key-bytes-round-trip", sc, [op |-> op]))
+                  /\ (name # "witness" => Chk(r.cc = Sub(kb, 65, 96), P, "Witness/" \o name \o "/chain-code", sc, [op |-> op, r |-> r]))
+                  /\ (name = "daedalus" => Chk(r.legacy_bytes = kb, P, "Witness/daedalus/key-bytes-round-trip", sc, [op |-> op]))
        [] name = "codec" ->
           /\ regs' = Append(rg, None)
           /\ IF a.term = ERR THEN TRUE
